@@ -101,6 +101,8 @@ class Check(object):
         """TLC validates every shard; returns list of rejections (dicts).  own_clauses: clause
         names that belong to this property (others are counted, not reported)."""
         shards = [s for s in shards if s['n_events'] > 0]
+        if trace_module in CHUNKABLE:
+            shards = [c for s in shards for c in _chunks(s, int(os.environ.get('VERIF_CHUNK', CHUNK_EVENTS)))]
         t0 = time.time()
 
         def one(s):
@@ -354,6 +356,43 @@ def load_findings(prop):
     with open(path) as fh:
         doc = json.load(fh)
     return [f for f in doc.get('findings', []) if f.get('property') == prop]
+
+
+CHUNK_EVENTS = 250000
+# trace specifications whose micro-traces (one tid each) are independent sessions: only these may be validated in pieces
+CHUNKABLE = {'Trace_Api', 'Trace_CheckDigit', 'Trace_Typo', 'Trace_National', 'Trace_Formats', 'Trace_Convert', 'Trace_Dispatch', 'Trace_Getters'}
+
+
+def _chunks(shard, limit):
+    """A recorded shard is validated in pieces of at most `limit` events, cut between micro-traces (TLC reads a whole trace
+    file into memory; the thorough tier records shards of millions of events).  Micro-traces are independent sessions, the
+    index (tid -> description) is shared."""
+    if shard['n_events'] <= limit:
+        return [shard]
+    out = []
+    base = shard['events']
+    part, n, traces, last_tid, k = None, 0, 0, None, 0
+    with open(base) as fh:
+        for ln in fh:
+            m = re.search(r'"tid": ?(\d+)', ln)
+            tid = m.group(1) if m else None
+            if part is None or (n >= limit and tid != last_tid):
+                if part is not None:
+                    part.close()
+                    out.append({'events': path, 'index': shard['index'], 'n_events': n, 'n_traces': traces})
+                k += 1
+                path = '%s.part%d' % (base, k)
+                part = open(path, 'w')
+                n, traces = 0, 0
+            if tid != last_tid:
+                traces += 1
+                last_tid = tid
+            part.write(ln)
+            n += 1
+    if part is not None:
+        part.close()
+        out.append({'events': path, 'index': shard['index'], 'n_events': n, 'n_traces': traces})
+    return out
 
 
 def match_finding(findings, v):
